@@ -37,7 +37,7 @@ TREE = {
     'fr/song secret.mp3': 'friends', 'fr/secret only.flac': 'friends',
 }
 ASKER = ('asker', '10.0.6.1', 7100)
-CHILDREN = {'c1': ('10.0.7.1', 0), 'c2': ('10.0.7.2', 0), 'c3': ('10.0.7.3', 0)}
+CHILDREN = {'c1': ('10.0.7.1', 7201), 'c2': ('10.0.7.2', 7202), 'c3': ('10.0.7.3', 7203)}
 QUERIES = {'visible': 'long song', 'locked': 'secret only', 'both': 'song', 'none': 'nomatch', 'excl': '-song',
            'wild': '*ong -secret'}
 TICKETS = [0, 1, 2 ** 32 - 1]
@@ -69,7 +69,9 @@ class Rig(TreeRig):
             self.ref.add(root, mode)
             self.ref.scan(root, [os.path.join(base, rel) for rel in TREE])
         self.asker = self.cw.peer(ASKER[0], ASKER[1], port=ASKER[2])
-        self.kids = {n: self.cw.peer(n, ip, listen=False) for n, (ip, _) in CHILDREN.items()}
+        # children also listen: a child (or the parent) can itself be the user who searches and must get its answer
+        # over a peer connection of type P
+        self.kids = {n: self.cw.peer(n, ip, port=port) for n, (ip, port) in CHILDREN.items()}
         self.kid_conns: dict = {}
         self.server.auto[M.GetPeerAddress.Request] = self._address
         self.requests: list[dict] = []
@@ -78,6 +80,10 @@ class Rig(TreeRig):
     def _address(self, srv, msg):
         if msg.username == ASKER[0]:
             srv.send(M.GetPeerAddress.Response(msg.username, ASKER[1], ASKER[2], 0, 0))
+        elif msg.username in CHILDREN:
+            srv.send(M.GetPeerAddress.Response(msg.username, CHILDREN[msg.username][0], CHILDREN[msg.username][1], 0, 0))
+        elif msg.username in PEERS:
+            srv.send(M.GetPeerAddress.Response(msg.username, PEERS[msg.username][0], PEERS[msg.username][1], 0, 0))
         else:
             srv.send(M.GetPeerAddress.Response(msg.username, '0.0.0.0', 0, 0, 0))
 
@@ -114,7 +120,8 @@ class Rig(TreeRig):
         elif kind == 'request':
             _, carrier, user, ticket, qname = ev
             query = QUERIES[qname]
-            username = ME if user == 'self' else ASKER[0]
+            username = ME if user == 'self' else (ASKER[0] if user == 'other' else user)
+            asker_peer = self.asker if user in ('self', 'other') else (self.kids.get(user) or self.peers.get(user))
             req = {'carrier': carrier, 'user': username, 'ticket': ticket, 'query': query,
                    'server_mark': len(self.server.received),
                    'broken': [n for n, pc in self.kid_conns.items()
@@ -123,7 +130,8 @@ class Rig(TreeRig):
                    # child (acceptance is on, the limit of 5 is never reached, none was proposed as parent)
                    'children': [n for n, pc in self.kid_conns.items() if not pc.closed and not pc.eof],
                    'mark': {n: len(pc.received) for n, pc in self.kid_conns.items()},
-                   'asker_mark': len(self.asker.received)}
+                   'asker_mark': len(asker_peer.received), 'asker_peer': asker_peer,
+                   'undecodable_mark': len(asker_peer.undecodable)}
             if carrier == 'server':
                 self.server.send(M.ServerSearchRequest.Response(3, 0x31, username, ticket, query))
             else:
@@ -187,7 +195,16 @@ class Rig(TreeRig):
         for pc in self.closed_kids:
             pass        # a closed scripted connection cannot receive anything (the sim drops it)
         # the asker
-        replies = [m for _, m in self.asker.received[req['asker_mark']:] if isinstance(m, M.PeerSearchReply.Request)]
+        asker_peer = req.get('asker_peer', self.asker)
+        replies = [m for _, m in asker_peer.received[req['asker_mark']:] if isinstance(m, M.PeerSearchReply.Request)]
+        # a reply is a peer message: it travels over a connection of type P, never over a distributed connection
+        stray = [(pc.typ, type(m).__qualname__) for pc, m in asker_peer.received[req['asker_mark']:]
+                 if isinstance(m, M.PeerSearchReply.Request) and pc.typ != 'P']
+        garbage = asker_peer.undecodable[req.get('undecodable_mark', 0):]
+        if stray or garbage:
+            self.add('reply-on-wrong-connection', f"{req['carrier']} request of {req['user']} (a tree neighbour): "
+                     f"{stray or len(garbage)} non-distributed frame(s) arrived on its distributed connection",
+                     'C14:reply-on-wrong-connection')
         matched = self.ref.query(req['query'])
         vis = sorted(os.path.relpath(f, self.base).split(os.sep, 1)[1].replace('/', '\\') for f in matched
                      if not self.ref.locked_for(f, req['user'], {'friend'}))
@@ -249,6 +266,16 @@ def histories(tier):
             if r[1] != 'server' and not has_parent:
                 continue
             out.append(shape + [r])
+    # the searching user is one of our tree neighbours (a child / the parent)
+    for shape in ([('child-join', 'c1'), ('child-join', 'c2')], [('child-join', 'c1'), ('parent',)],
+                  [('child-join', 'c1'), ('child-join', 'c2'), ('parent',)]):
+        has_parent = ('parent',) in shape
+        for carrier in carriers:
+            if carrier != 'server' and not has_parent:
+                continue
+            for user in ('c1', 'p1') if has_parent else ('c1',):
+                for q in ('both', 'visible', 'none'):
+                    out.append(shape + [('request', carrier, user, 3, q)])
     # faults and duplicate connections while forwarding
     r_srv = ('request', 'server', 'other', 5, 'both')
     r_dist = ('request', 'dist', 'other', 6, 'visible')
